@@ -1,0 +1,21 @@
+//go:build verif
+
+package metrics
+
+import (
+	"net/http"
+
+	generator "k8s.io/kube-state-metrics/v2/pkg/metric_generator"
+	metricsstore "k8s.io/kube-state-metrics/v2/pkg/metrics_store"
+)
+
+// VerifKsmHandler returns the real /ksmetrics handler over one metrics store per group of family generators,
+// built like newMetricsStore does but without a reflector: the caller feeds the returned stores itself.
+func VerifKsmHandler(groups ...[]generator.FamilyGenerator) (http.Handler, []*metricsstore.MetricsStore) {
+	h := &storesHandler{}
+	for _, g := range groups {
+		h.stores = append(h.stores, metricsstore.NewMetricsStore(generator.ExtractMetricFamilyHeaders(g), generator.ComposeMetricGenFuncs(g)))
+	}
+
+	return http.HandlerFunc(h.serveKsmHTTP), h.stores
+}
